@@ -309,6 +309,7 @@ type runner struct {
 	res  map[string]int // tag/verdict -> count
 	addrViol []string   // keys whose GetAddress differs from the reference address
 	dump     *os.File
+	branch   map[string]int // which branch of the real code decided the verdict
 	hs       hardenStats
 	ret      []retained
 	retMax   int
@@ -328,6 +329,7 @@ func (rn *runner) vt(tag string, c chainCfg, height uint64, tx *types.Transactio
 	r := rn.out.Do(line, func() string { return verdict(rn.pool.VerifyTransaction(arg, height)) })
 	rn.tags[tag]++
 	rn.res[tag+"/"+r]++
+	rn.branch[branchOf(c, height, tx, r)]++
 	if rn.dump != nil && rn.tags[tag] == 1 && (strings.Contains(tag, "short") || strings.Contains(tag, "hash0") || strings.Contains(tag, "unpadded") || tag == "native-other-height") {
 		fmt.Fprintf(rn.dump, "# %s (%s)\n%s\n", tag, r, strings.Join(strings.Fields(line)[:20], " "))
 	}
@@ -347,6 +349,53 @@ func (rn *runner) vt(tag string, c chainCfg, height uint64, tx *types.Transactio
 	return r
 }
 
+// branchOf names the branch of VerifyTransaction that decides a verdict (distribution only).
+func branchOf(c chainCfg, height uint64, tx *types.Transaction, verdict string) string {
+	if tx.Type == types.TransactionTypeETHTX {
+		if verdict == "ok" {
+			return "eth:ok"
+		}
+		enc := common.FromHex(tx.ExtraData)
+		et := new(eth_tx.Transaction)
+		if err := rlp.DecodeBytes(enc, et); err != nil {
+			return "eth:undecodable"
+		}
+		if re, err := rlp.EncodeToBytes(et); err != nil || !bytes.Equal(re, enc) {
+			return "eth:noncanonical"
+		}
+		if _, err := eth_tx.Sender(eth_tx.NewEIP155Signer(refEthChain(c, height)), et); err != nil {
+			if err == eth_tx.ErrInvalidChainId {
+				return "eth:sender-other-chain"
+			}
+			if err == eth_tx.ErrInvalidSig {
+				return "eth:sender-invalid-values"
+			}
+			return "eth:sender-recovery-failed"
+		}
+		return "eth:declared-field-differs"
+	}
+	switch verdict {
+	case "ok":
+		return "native:ok"
+	case "chainid":
+		return "native:chainid"
+	case "hash":
+		return "native:hash"
+	}
+	if tx.Sign == nil {
+		return "native:sign-nil"
+	}
+	sb := tx.Sign.Bytes()
+	pk, err := secp256k1.RecoverPubkey(tx.Hash.Bytes(), append([]byte{}, sb...))
+	if err != nil {
+		return "native:sign-recovery-failed"
+	}
+	if !secp256k1.VerifySignature(pk, tx.Hash.Bytes(), sb[:64]) {
+		return "native:sign-verify-failed"
+	}
+	return "native:sign-other-address"
+}
+
 // addr: PublicKey.GetAddress of the real code on a 65-byte key vs the model's padded derivation.
 func (rn *runner) addr(tag string, pk []byte) string {
 	o := newOracle()
@@ -362,6 +411,152 @@ func (rn *runner) addr(tag string, pk []byte) string {
 		rn.addrViol = append(rn.addrViol, hx.Hex(pk))
 	}
 	return r
+}
+
+// scacheOp: eth_tx.Sender on one decoded object with a sequence of signers (the per-object sigCache).
+func (rn *runner) scacheOp(enc []byte, chains []*big.Int) {
+	o := newOracle()
+	var cs []string
+	for _, ch := range chains {
+		ethOracle(o, enc, ch)
+		cs = append(cs, ch.String())
+	}
+	line := "scache " + hx.Hex(enc) + " " + strings.Join(cs, ",") + o.String()
+	r := rn.out.Do(line, func() string {
+		et := new(eth_tx.Transaction)
+		if err := rlp.DecodeBytes(enc, et); err != nil {
+			return "err-decode"
+		}
+		var outs []string
+		for _, ch := range chains {
+			a, err := eth_tx.Sender(eth_tx.NewEIP155Signer(ch), et)
+			if err != nil {
+				outs = append(outs, "err")
+			} else {
+				outs = append(outs, hx.Hex(a.Bytes()))
+			}
+		}
+		return strings.Join(outs, " ")
+	})
+	rn.tags["scache"]++
+	_ = r
+}
+
+// signPathOps: the Go code around the library's signature on the signing side —
+// Signer.SignatureValues (Frontier/Homestead and EIP-155, incl. byte wrap-around and chain id 0)
+// and the native secp256k1.Sign wrapper (recovery id + 27).
+func (rn *runner) signPathOps(g gen, k *ecdsa.PrivateKey, chain *big.Int, et *eth_tx.Transaction) {
+	h := g.r.Bytes(32)
+	sig, err := crypto.Sign(h, k)
+	if err != nil {
+		return
+	}
+	sigs := [][]byte{sig}
+	for _, last := range []byte{0, 1, 2, 3, 27, 28, 220, 221, 228, 229, 255} {
+		s2 := append([]byte{}, sig...)
+		s2[64] = last
+		sigs = append(sigs, s2)
+	}
+	sigs = append(sigs, sig[:64], append(append([]byte{}, sig...), 0), nil, g.r.Bytes(65))
+	chains := []*big.Int{chain, new(big.Int), big.NewInt(1), new(big.Int).Lsh(big.NewInt(1), 63), new(big.Int).Lsh(big.NewInt(1), 70)}
+	fmtRSV := func(r, s, v *big.Int, err error) string {
+		if err != nil {
+			return "error"
+		}
+		return r.String() + " " + s.String() + " " + v.String()
+	}
+	norm := func(x string) string {
+		if strings.HasPrefix(x, "PANIC") {
+			return "panic"
+		}
+		return x
+	}
+	for si, sg := range sigs {
+		sg := sg
+		if si > 3 && g.r.Chance(2, 3) {
+			continue
+		}
+		ch := chains[g.r.Intn(len(chains))]
+		if si == 0 {
+			ch = chain
+		}
+		line := "sigv " + ch.String() + " " + hx.Hex(sg)
+		r := norm(hx.Guard(func() string { return fmtRSV(eth_tx.NewEIP155Signer(ch).SignatureValues(et, sg)) }))
+		rn.out.Emit(line, r)
+		rn.tags["sigv"]++
+		rn.res["sigv/"+strings.SplitN(r, " ", 2)[0][:min(5, len(strings.SplitN(r, " ", 2)[0]))]]++
+		if si%3 == 0 {
+			r2 := norm(hx.Guard(func() string { return fmtRSV(eth_tx.HomesteadSigner{}.SignatureValues(et, sg)) }))
+			rn.out.Emit("fsigv "+hx.Hex(sg), r2)
+			rn.tags["fsigv"]++
+		}
+	}
+	// native wrapper: the library's raw signature (the eth_crypto copy returns it unchanged, RFC 6979
+	// nonces make both copies produce the same r, s) vs common/secp256k1.Sign
+	key := pad32(k.D.Bytes())
+	raw, err1 := ethsecp.Sign(h, key)
+	nat, err2 := secp256k1.Sign(h, key)
+	if err1 == nil && err2 == nil {
+		rn.out.Emit("nsig "+hx.Hex(raw), hx.Hex(nat))
+		rn.tags["nsig"]++
+	}
+}
+
+// batchOps: the admission loop through the real handlers as a correspondence stream: small batches
+// mixing honest, forged, duplicated and aliased elements, every entry point.
+func (rn *runner) batchOps(g gen, kp *keyPool, c chainCfg, height uint64, i int) {
+	entries := []string{"worker", "write", "runwrite"}
+	for b := 0; b < 2; b++ {
+		entry := entries[(i+b)%3]
+		size := 1 + g.r.Intn(4)
+		var batch []*types.Transaction
+		kinds := ""
+		for j := 0; j < size; j++ {
+			k := g.keyFrom(kp)
+			switch g.r.Intn(6) {
+			case 0:
+				e := g.forge(k, c, height, g.r.Intn(7))
+				batch = append(batch, e.tx)
+				kinds += "F"
+			case 1:
+				if len(batch) > 0 { // duplicate of an earlier element
+					batch = append(batch, cloneTx(batch[g.r.Intn(len(batch))]))
+					kinds += "D"
+					continue
+				}
+				fallthrough
+			case 2:
+				e := g.honestElem(k, c, height, true)
+				batch = append(batch, e.tx)
+				kinds += "E"
+			case 3:
+				if len(batch) > 0 && batch[len(batch)-1].Type != types.TransactionTypeETHTX && batch[len(batch)-1].Sign != nil {
+					// same hash, other spelling of the recovery id: refused by the pool as existing
+					a := cloneTx(batch[len(batch)-1])
+					a.Sign = recidAlias(a.Sign)
+					batch = append(batch, a)
+					kinds += "A"
+					continue
+				}
+				fallthrough
+			default:
+				e := g.honestElem(k, c, height, false)
+				batch = append(batch, e.tx)
+				kinds += "N"
+			}
+		}
+		var r string
+		if b == 1 && len(batch) >= 2 {
+			// the first element (or an honest transaction with the same hash but another signature
+			// spelling) is already in the pool
+			pre := []*types.Transaction{batch[0]}
+			r = rn.batchOpPre("batch-"+entry+"-prefilled", entry, c, height, pre, batch)
+			kinds = "pre:" + kinds
+		} else {
+			r = rn.batchOp("batch-"+entry, entry, c, height, batch)
+		}
+		rn.res["batch-shape/"+kinds+"="+r]++
+	}
 }
 
 func (rn *runner) conv(tag string, chain *big.Int, enc []byte) string {
@@ -1049,7 +1244,7 @@ func main() {
 		panic(err)
 	}
 	defer out.Close()
-	rn := &runner{out: out, pool: pool, tags: map[string]int{}, res: map[string]int{}, retMax: 3000, rr: hx.NewRng(hx.SeedFromEnv() ^ 0xa11a5)}
+	rn := &runner{out: out, pool: pool, tags: map[string]int{}, res: map[string]int{}, branch: map[string]int{}, retMax: 3000, rr: hx.NewRng(hx.SeedFromEnv() ^ 0xa11a5)}
 	if a["dump"] != "" {
 		rn.dump, _ = os.Create(a["dump"])
 		defer rn.dump.Close()
@@ -1140,6 +1335,19 @@ func main() {
 		}
 		rn.vt("eth-honest", c, height, wtx)
 		rn.conv("conv-honest", chain, enc)
+		rn.signPathOps(g, k, chain, et)
+		{
+			// the sender cache: same object, signers of this chain, another chain, this chain again, …
+			oc2 := new(big.Int).Add(chain, big.NewInt(1))
+			seqs := [][]*big.Int{{chain, chain, oc2, chain}, {oc2, chain, chain, oc2, oc2}, {chain, new(big.Int), chain}}
+			rn.scacheOp(enc, seqs[i%3])
+			if hom, err := eth_tx.SignTx(g.ethUnsigned(), eth_tx.HomesteadSigner{}, k); err == nil {
+				if henc, err := rlp.EncodeToBytes(hom); err == nil {
+					rn.scacheOp(henc, seqs[(i+1)%3]) // unprotected: every EIP-155 signer falls back to Homestead
+				}
+			}
+		}
+		rn.batchOps(g, pool2, c, height, i)
 		// padding classes of the payload signature: r or s with a leading zero byte (31-byte RLP strings)
 		for _, class := range []string{"short-r", "short-s"} {
 			for tries := 0; tries < 1500; tries++ {
@@ -1160,8 +1368,31 @@ func main() {
 		for _, m := range ethFieldMutants(g.r, wtx) {
 			rn.vt("eth-mut-"+m.field, c, height, m.tx)
 		}
-		for _, uc := range unsignedCases(g, et, k, chain) {
-			rn.vt("eth-unsigned-"+uc.name, c, height, uc.tx)
+		// every invalid-signature class with the zero Source each iteration, the other declared Sources
+		// for a rotating third of the classes (the family is 65 ops otherwise and dominates the stream)
+		for ui, uc := range unsignedCases(g, et, k, chain) {
+			if strings.HasSuffix(uc.name, "/zero") || (ui/5)%3 == i%3 {
+				rn.vt("eth-unsigned-"+uc.name, c, height, uc.tx)
+			}
+		}
+		// the one decodable-but-non-canonical spelling (recipient 0xc0) needs a contract creation: make one
+		// every iteration, with the honest declared fields and with re-derived ones
+		{
+			cre, err := eth_tx.SignTx(eth_tx.NewContractCreation(g.nonce(), g.bigVal(), 21000, g.bigVal(), g.payloadData()), eth_tx.NewEIP155Signer(chain), k)
+			if err == nil {
+				cre = specV(cre, chain)
+				hw, _ := independentWrap(cre, k, chain)
+				its := itemsOf(cre)
+				its[3] = []byte{0xc0}
+				alt := rlpList(its...)
+				t1 := cloneTx(hw)
+				t1.ExtraData = "0x" + hx.Hex(alt)
+				rn.vt("eth-noncanonical-c0", c, height, t1)
+				t2 := cloneTx(t1)
+				t2.Hash = common.BytesToHash(refKeccak(alt))
+				rn.vt("eth-noncanonical-c0-hash-restated", c, height, t2)
+				rn.conv("conv-noncanonical-c0", chain, alt)
+			}
 		}
 		// Homestead-signed and other-chain payloads, wrapped as eth_rpc would wrap them
 		hom, _ := eth_tx.SignTx(g.ethUnsigned(), eth_tx.HomesteadSigner{}, k)
@@ -1196,6 +1427,7 @@ func main() {
 	st["generators"] = rn.tags
 	st["generator_results"] = rn.res
 	st["selfcheck_fail"] = selfcheckFail
+	st["branches"] = rn.branch
 	st["key_pool"] = pool2.stats
 	st["address_differs_from_reference"] = rn.addrViol
 	b, _ := json.Marshal(st)
